@@ -428,9 +428,11 @@ class Client(base_client.BaseClient):
             # (a string or an object would be taken apart into arguments)
             raise ValueError('The payload of an acknowledgement is a list.')
         if type(id) is not int:
-            # (with the msgpack serializer an id arrives as it was packed:
-            # 1.0 or true would find the callback registered under 1)
-            raise ValueError('The id of an acknowledgement is an integer.')
+            # (an acknowledgement without an id; with the msgpack serializer
+            # an id arrives as it was packed, and 1.0 or true would find the
+            # callback registered under 1)
+            self.logger.warning('Unknown callback received, ignoring.')
+            return
         namespace = namespace or '/'
         self.logger.info('Received ack [%s]', namespace)
         callback = None
